@@ -86,6 +86,17 @@ Theorem c37_cpl_is_shared_prefix_bits :
 Proof. exact cpl_numeric. Qed.
 Print Assumptions c37_cpl_is_shared_prefix_bits.
 
+(** Remove is effective on every reachable table: after Remove(id) no peer with that id is left
+    in any bucket (the removal takes the first entry of the home bucket, which by the invariant is
+    the only entry anywhere). *)
+Theorem c37_remove_effective :
+  forall (size : Z) (local : peer_id) (ops : list op) (id : peer_id) (t : table),
+    (1 <= size)%Z -> length local = KB_ID_LEN ->
+    exec (new_table size local) ops = Some t ->
+    forall p, in_table (fst (remove t id)) p -> fst p <> id.
+Proof. exact remove_effective_reachable. Qed.
+Print Assumptions c37_remove_effective.
+
 (** Concurrent callers.  The theorems above are about sequential histories; the table is used
     by several goroutines, and its claim is that Update / Remove / NearestPeers are atomic with
     respect to each other because each runs under the one table lock.  That discipline is read from
